@@ -3,7 +3,8 @@
 (* InvalidationIndex (invalidator.go): label index of cache keys per cache  *)
 (* name, deleters registered per name, and InvalidateByLabels decomposed    *)
 (* as in the code:                                                          *)
-(*   Snapshot  - copy of the per-name maps and deleter lists   (under mu)   *)
+(*   Snapshot  - copy of the per-name maps and deleter lists   (under mu);  *)
+(*               only names that some AddLabels has created are visited      *)
 (*   CutKeys   - per name: take the key lists of the requested labels out   *)
 (*               of the index                                   (under mu)  *)
 (*   Delete    - one call-out Deleter.Delete(key) per key and deleter;      *)
@@ -31,6 +32,7 @@ CONSTANTS
 
 VARIABLES
   labeled,   \* [Names -> [Labels -> Seq(Keys)]]
+  known,     \* SUBSET Names: names that have an entry in labeledKeysByName (created by the first AddLabels)
   regd,      \* [Names -> Seq(Dels)]
   cont,      \* [Dels -> SUBSET Keys]: keys present in each cache
   pc,        \* [Procs -> label]
@@ -38,7 +40,7 @@ VARIABLES
   res,       \* [Procs -> [done, n, err]]
   faults, envn, running, act
 
-vars == <<labeled, regd, cont, pc, loc, res, faults, envn, running, act>>
+vars == <<labeled, known, regd, cont, pc, loc, res, faults, envn, running, act>>
 
 SeqToSet(s) == {s[i] : i \in DOMAIN s}
 Filter(s, P(_)) == SelectSeq(s, P)
@@ -55,6 +57,7 @@ LocInit == [names |-> {},        \* names still to process (snapshot)
 
 Init ==
   /\ labeled = [n \in Names |-> [l \in Labels |-> <<>>]]
+  /\ known = {}
   /\ regd = InitRegd
   /\ cont = [d \in Dels |-> {}]
   /\ pc = [p \in Procs |-> "idle"]
@@ -79,6 +82,7 @@ AddLabels(n, k, ls) ==      \* ls: non-empty sequence of labels
   /\ EnvFrame
   /\ labeled' = [labeled EXCEPT ![n] =
         [l \in Labels |-> labeled[n][l] \o [i \in 1..Cardinality({j \in DOMAIN ls : ls[j] = l}) |-> k]]]
+  /\ known' = known \cup {n}
   /\ Act("", "AddLabels", n, k, ls)
   /\ UNCHANGED <<regd, cont>>
 
@@ -87,14 +91,14 @@ AddCache(d) ==
   /\ d \notin UNION {SeqToSet(regd[n]) : n \in Names}
   /\ regd' = [regd EXCEPT ![NameOfDel[d]] = Append(@, d)]
   /\ Act("", "AddCache", NameOfDel[d], d, <<>>)
-  /\ UNCHANGED <<labeled, cont>>
+  /\ UNCHANGED <<labeled, known, cont>>
 
 Put(d, k) ==
   /\ EnvFrame
   /\ k \notin cont[d]
   /\ cont' = [cont EXCEPT ![d] = @ \cup {k}]
   /\ Act("", "Put", d, k, <<>>)
-  /\ UNCHANGED <<labeled, regd>>
+  /\ UNCHANGED <<labeled, known, regd>>
 
 ---------------------------------------------------------------------------
 (* InvalidateByLabels(ArgsOf[p]...)                                         *)
@@ -103,12 +107,12 @@ Args(p) == ArgsOf[p]
 
 Snapshot(p) ==
   /\ pc[p] = "idle" /\ Sched(p)
-  /\ loc' = [loc EXCEPT ![p].names = Names, ![p].dsnap = regd, ![p].cnt = 0, ![p].lab0 = labeled,
+  /\ loc' = [loc EXCEPT ![p].names = known, ![p].dsnap = regd, ![p].cnt = 0, ![p].lab0 = labeled,
                         ![p].envAt = envn]
   /\ pc' = [pc EXCEPT ![p] = "nextname"]
   /\ Act(p, "Snapshot", "", "", Args(p))
   /\ Run(p)
-  /\ UNCHANGED <<labeled, regd, cont, res, faults, envn>>
+  /\ UNCHANGED <<labeled, known, regd, cont, res, faults, envn>>
 
 (* Next name (map iteration order: any), cut its keys out of the index.      *)
 CutKeys(p, n) ==
@@ -122,7 +126,7 @@ CutKeys(p, n) ==
   /\ pc' = [pc EXCEPT ![p] = "advance"]
   /\ Act(p, "CutKeys", n, "", <<>>)
   /\ Run(p)
-  /\ UNCHANGED <<regd, cont, res, faults, envn>>
+  /\ UNCHANGED <<known, regd, cont, res, faults, envn>>
 
 AllNamesDone(p) ==
   /\ pc[p] = "nextname" /\ Sched(p)
@@ -131,7 +135,7 @@ AllNamesDone(p) ==
   /\ pc' = [pc EXCEPT ![p] = "done"]
   /\ Act(p, "Return", "", "", <<>>)
   /\ Run(p)
-  /\ UNCHANGED <<labeled, regd, cont, loc, faults, envn>>
+  /\ UNCHANGED <<labeled, known, regd, cont, loc, faults, envn>>
 
 CurLabel(p) == Args(p)[loc[p].li]
 CurKeys(p)  == IF CurLabel(p) \in DOMAIN loc[p].cut THEN loc[p].cut[CurLabel(p)] ELSE <<>>
@@ -162,7 +166,7 @@ Advance(p) ==
                        /\ UNCHANGED loc
   /\ Act(p, "Advance", "", "", <<>>)
   /\ Run(p)
-  /\ UNCHANGED <<labeled, regd, cont, res, faults, envn>>
+  /\ UNCHANGED <<labeled, known, regd, cont, res, faults, envn>>
 
 (* The call-out Deleter.Delete(ctx, key).                                   *)
 Delete(p, fault) ==
@@ -180,7 +184,7 @@ Delete(p, fault) ==
             /\ pc' = [pc EXCEPT ![p] = "advance"]
             /\ Act(p, "Delete", d, k, <<IF k \in cont[d] THEN "ok" ELSE "notfound">>)
   /\ Run(p)
-  /\ UNCHANGED <<labeled, regd, res, envn>>
+  /\ UNCHANGED <<labeled, known, regd, res, envn>>
 
 (* Deferred put-back: every cut key that was not deleted returns to the      *)
 (* index under its label; the error is returned.                             *)
@@ -196,7 +200,7 @@ PutBack(p) ==
   /\ pc' = [pc EXCEPT ![p] = "done"]
   /\ Act(p, "PutBack", "", "", <<>>)
   /\ Run(p)
-  /\ UNCHANGED <<regd, cont, loc, faults, envn>>
+  /\ UNCHANGED <<known, regd, cont, loc, faults, envn>>
 
 ProcNext(p) ==
   \/ Snapshot(p) \/ AllNamesDone(p) \/ Advance(p) \/ PutBack(p)
@@ -213,7 +217,7 @@ EnvNext ==
 Next == (\E p \in Procs : ProcNext(p)) \/ EnvNext
 Spec == Init /\ [][Next]_vars
 
-View == <<labeled, regd, cont, pc, loc, res, faults, envn, running>>
+View == <<labeled, known, regd, cont, pc, loc, res, faults, envn, running>>
 
 ---------------------------------------------------------------------------
 (* Properties (C15)                                                        *)
